@@ -5,7 +5,7 @@ from harness.props import base
 PROP = {
     "id": "C02",
     "quick_n": 450,
-    "thorough_n": 8000,
+    "thorough_n": 4500,
     "rule": "one program = tree spec, a stream over the tree's critical values (every edge, "
             "midpoint, threshold, +-ulp, nan, +-inf; strings/None/bool/nan categories) with weights "
             "incl. 0/negative/nan, filled into one copy in order and into a second copy in a "
